@@ -352,3 +352,125 @@ func ResetFirst(prog *load.Program, fn *ssa.Function, global string) Result {
 	res.Detail = fmt.Sprintf("%s.RemoveAll() dominates the %d writing call(s) of the function", global, len(writes))
 	return res
 }
+
+// EveryElementPassedTo: fn has one loop ranging over its slice parameter `param`; in every
+// iteration that reaches the next one, the current element is passed (as argument number
+// argIdx, receiver = 0) to a call of the function or method named callee; no element is
+// skipped and none is passed twice on one path.
+func EveryElementPassedTo(prog *load.Program, fn *ssa.Function, param string, callee string, argIdx int) Result {
+	res := Result{Name: fnKey(fn) + "/every-element-of-" + param + "-reaches-" + callee, Func: fnKey(fn), Pos: prog.Pos(fn.Pos())}
+	var p *ssa.Parameter
+	for _, q := range fn.Params {
+		if q.Name() == param {
+			p = q
+		}
+	}
+	if p == nil {
+		res.Detail = "no parameter " + param
+		return res
+	}
+	// the range index phi over len(param)
+	var hdr *ssa.BasicBlock
+	var idx *ssa.Phi
+	for _, b := range fn.Blocks {
+		for _, in := range b.Instrs {
+			if phi, ok := in.(*ssa.Phi); ok && phi.Comment == "rangeindex" {
+				if hdr != nil {
+					res.Detail = "more than one range loop"
+					return res
+				}
+				hdr, idx = b, phi
+			}
+		}
+	}
+	if hdr == nil {
+		res.Detail = "no range loop"
+		return res
+	}
+	isElem := func(v ssa.Value) bool {
+		if ct, ok := v.(*ssa.ChangeType); ok {
+			v = ct.X
+		}
+		ld, ok := v.(*ssa.UnOp)
+		if !ok {
+			return false
+		}
+		ia, ok := ld.X.(*ssa.IndexAddr)
+		if !ok || ia.X != ssa.Value(p) {
+			return false
+		}
+		bo, ok := ia.Index.(*ssa.BinOp)
+		return ok && bo.Op == token.ADD && bo.X == ssa.Value(idx)
+	}
+	calls := map[*ssa.BasicBlock]int{}
+	for _, b := range fn.Blocks {
+		for _, in := range b.Instrs {
+			c, ok := in.(*ssa.Call)
+			if !ok || !strings.HasSuffix(calleeName(&c.Call), callee) {
+				continue
+			}
+			if argIdx >= len(c.Call.Args) || !isElem(c.Call.Args[argIdx]) {
+				res.Detail = "a call of " + callee + " does not get the current element"
+				return res
+			}
+			calls[b]++
+		}
+	}
+	if len(calls) == 0 {
+		res.Detail = "no call of " + callee
+		return res
+	}
+	// every path from the first block after the header back to the header goes through
+	// exactly one calling block
+	var latches []*ssa.BasicBlock
+	for _, pred := range hdr.Preds {
+		if hdr.Dominates(pred) {
+			latches = append(latches, pred)
+		}
+	}
+	type st struct {
+		b *ssa.BasicBlock
+		n int
+	}
+	seen := map[st]bool{}
+	var walk func(b *ssa.BasicBlock, n int) string
+	walk = func(b *ssa.BasicBlock, n int) string {
+		n += calls[b]
+		if n > 1 {
+			return "an element can be passed to " + callee + " twice"
+		}
+		if seen[st{b, n}] {
+			return ""
+		}
+		seen[st{b, n}] = true
+		for _, s := range b.Succs {
+			if s == hdr {
+				if n != 1 {
+					return "an element can reach the next iteration without being passed to " + callee
+				}
+				continue
+			}
+			if !hdr.Dominates(s) {
+				continue // leaves the loop (return)
+			}
+			if r := walk(s, n); r != "" {
+				return r
+			}
+		}
+		return ""
+	}
+	for _, s := range hdr.Succs {
+		if hdr.Dominates(s) && s != hdr {
+			// only the body successor: the exit successor is not dominated by the body... both
+			// are dominated by the header; the exit never returns to the header
+			if r := walk(s, 0); r != "" {
+				res.Detail = r
+				return res
+			}
+		}
+	}
+	_ = latches
+	res.OK = true
+	res.Detail = "each element of " + param + " is passed to " + callee + " exactly once per iteration"
+	return res
+}
